@@ -121,6 +121,27 @@ func runReplays(e *Engine, repo, hdir string, reps []*pendingReplay) {
 		tf := filepath.Join(tmp, sanitize(pkg)+"_replay_test.go")
 		os.WriteFile(tf, []byte(sb.String()), 0o644)
 		replace[filepath.Join(repo, pkg, "zz_verif_replay_test.go")] = tf
+		// randomness: the symbolic run treats math/rand draws as solver variables; the native replay must see the
+		// model's values, so the package's own calls to rand.Uint32() are routed to the replay file (source rewrite
+		// of a temporary copy, applied through the overlay; /repo is untouched).
+		if ents, err := os.ReadDir(filepath.Join(repo, pkg)); err == nil {
+			for _, ent := range ents {
+				n := ent.Name()
+				if ent.IsDir() || !strings.HasSuffix(n, ".go") || strings.HasSuffix(n, "_test.go") {
+					continue
+				}
+				src, err := os.ReadFile(filepath.Join(repo, pkg, n))
+				if err != nil || !strings.Contains(string(src), "rand.Uint32()") {
+					continue
+				}
+				txt := strings.ReplaceAll(string(src), "rand.Uint32()", "zzverifrt.RandU32()")
+				txt = strings.Replace(txt, "import (", "import (\n\tzzverifrt \""+verifPkg+"\"", 1)
+				txt += "\nvar _ = rand.Uint32\n"
+				cp := filepath.Join(tmp, sanitize(pkg)+"_"+n)
+				os.WriteFile(cp, []byte(txt), 0o644)
+				replace[filepath.Join(repo, pkg, n)] = cp
+			}
+		}
 		ovData, _ := json.Marshal(map[string]interface{}{"Replace": replace})
 		ovPath := filepath.Join(tmp, sanitize(pkg)+"_ov.json")
 		os.WriteFile(ovPath, ovData, 0o644)
